@@ -137,7 +137,11 @@ func scSystem(n, rounds, events int) {
 		}
 	}
 	verifReach("end")
-	for i := range ctxs {
-		ctxs[i].Stop()
+	// (no Stop of unfinished nodes here: closing a CRDT resource waits for its broadcaster, which only notices at its
+	// next tick, and ticks are events of this harness)
+	if allDone {
+		for i := range ctxs {
+			ctxs[i].Stop()
+		}
 	}
 }
